@@ -1,7 +1,7 @@
 #!/usr/bin/env python3
 """C02: reader output is independent of the consumption history (reference cursor model, ASan)."""
 import os, sys, shutil
-sys.path.insert(0, os.path.join(os.path.dirname(os.path.abspath(__file__)), '..', 'bin'))
+sys.path.insert(0, os.path.join(os.path.dirname(os.path.abspath(__file__)), '..', 'bin')); sys.path.insert(0, os.path.join(os.path.dirname(os.path.abspath(__file__)), '..', 'ref'))
 import vlib
 
 
